@@ -18,11 +18,13 @@
 (*   [i, sid, w |-> world as observed (commitments read back from the real   *)
 (*    enforcement state, allowlist as configured), q |-> the request as      *)
 (*    built, obs |-> [ok, tag, sig, closed, closedr, changed, err]]          *)
-(* IOEnv: MCL_LOG (ndjson), MCL_REPORT (json)                                *)
+(* IOEnv: MCL_LOG (ndjson), MCL_REPORT (json), MCL_SATURATE (behaviour switch)*)
 (***************************************************************************)
 EXTENDS MutualClose, Json, IOUtils, SequencesExt
 
 Log == ndJsonDeserialize(IOEnv.MCL_LOG)
+
+K == [saturate |-> IOEnv.MCL_SATURATE = "true"]          \* behaviour switch: what the code does at HEAD
 
 WorldOfRec(e) == [out |-> e.w.out, chv |-> e.w.chv, upfront |-> e.w.upfront,
                   eps |-> e.w.eps, minr |-> e.w.minr, maxr |-> e.w.maxr,
@@ -35,7 +37,7 @@ Judge(e) ==
       q == ReqOfRec(e)
       fs == FailSets(w, q)
       must == MustRefuseF(fs)
-      impl == ImplStep(w, q) IN
+      impl == ImplStep(w, q, K) IN
   [v |-> VerdictF(must, e.obs), must |-> must,
    sole |-> SoleRulesF(fs),
    fail |-> IF must THEN MinFailF(fs) ELSE {},
